@@ -179,9 +179,20 @@ class Run:
             self.returned_in_time = (lim is None) or (ar is not None and ar < lim * iv)
         while self.time_triggers and self.time_triggers[0][0] <= now + 1e-12:
             self.gw.apply(self.time_triggers.pop(0)[1])
-        while self.observes and self.observes[0][0] <= now + 1e-12:
+        if self.sc.get("observe_after_cmd") and not getattr(self, "_obs_anchored", False):
+            # observed traffic timed relative to the moment the n-th DALI command went out
+            if self.gw.ncmd >= self.sc["observe_after_cmd"]:
+                self._obs_anchored = True
+                self.observes = [[t + now, k, v, b] for t, k, v, b in self.observes]
+        while self.observes and self.observes[0][0] <= now + 1e-12 and \
+                (not self.sc.get("observe_after_cmd") or getattr(self, "_obs_anchored", False)):
             _, kind, value, bits = self.observes.pop(0)
-            self.gw.observe(kind, value, bits)
+            if "observe_latency" in self.sc:
+                keep, self.gw.latency = self.gw.latency, self.sc["observe_latency"]
+                self.gw.observe(kind, value, bits)
+                self.gw.latency = keep
+            else:
+                self.gw.observe(kind, value, bits)
         while self.subs and self.subs[0][0] <= now + 1e-12:
             _, what, name = self.subs.pop(0)
             self._subscriber(what, name)
@@ -221,7 +232,8 @@ class Run:
         nr = self.gw.next_release()
         if nr is not None:
             cands.append(nr)
-        for lst in (self.time_triggers, self.observes, self.subs):
+        waiting = self.sc.get("observe_after_cmd") and not getattr(self, "_obs_anchored", False)
+        for lst in (self.time_triggers, [] if waiting else self.observes, self.subs):
             if lst:
                 cands.append(lst[0][0])
         for name, c in self.callers.items():
@@ -335,6 +347,24 @@ class Run:
         self.callers[name]["_started"] = True
         d = self.driver
         from dali import sequences as _sq
+        if c.get("mode") == "power":
+            # switches the interface's bus power supply: each call is a unit of its own, under the transaction lock
+            res = {"results": [], "exc": "none", "closed": -1, "t0": round(self.loop.time(), 6), "t1": -1, "aux_ok": 1}
+            self.callers[name]["_desc"] = [{"frame": 0x4000 + (n & 1), "bits": 8, "dt": 0, "twice": 0, "query": 0, "resp": "none",
+                                            "cls": "power"} for _, n in c["unit"]]
+            try:
+                for _, n in c["unit"]:
+                    await d.power_supply(bool(n & 1))
+                    res["results"].append(describe_result(None))
+            except asyncio.CancelledError:
+                res["exc"] = "CancelledError"
+            except BaseException as e:  # noqa: recorded
+                res["exc"] = type(e).__name__
+            res["t1"] = round(self.loop.time(), 6)
+            self.callers[name]["_res"] = res
+            self.elog.append({"ev": "done", "c": name, "exc": {"none": "none", "CancelledError": "Cancelled"}.get(res["exc"], res["exc"]),
+                              "nres": 0, "res": []})
+            return
         items = [(_sq.sleep(n / 1000.0) if k == "sleep" else _sq.progress(message="p%d" % n) if k == "progress" else make_command(k, n))
                  for k, n in c["unit"]]
         cmds = [x for x in items if not isinstance(x, (_sq.sleep, _sq.progress))]
